@@ -226,6 +226,39 @@ def bigLsh (i j : Int) : Int := i * (2 : Int) ^ j.toNat
 /-- `bigIntRsh` : floor (i / 2^j) (`Rsh` and the `Div` fallback agree). -/
 def bigRsh (i j : Int) : Int := i / ((2 : Int) ^ j.toNat)
 
+/-- `BitLen` of the absolute value -/
+def bitLen (i : Int) : Nat := if i.natAbs = 0 then 0 else Nat.log2 i.natAbs + 1
+
+/-- Executable shortcut for `bigRsh` (same function, proved below and installed with `@[csimp]`
+so that the compiled driver does not build `2^j` for a huge count `j`): once
+`j ≥ BitLen(|i|)` the floor quotient is `-1` (negative `i`) or `0`. -/
+def bigRshFast (i j : Int) : Int :=
+  if bitLen i ≤ j.toNat then (if i < 0 then -1 else 0) else i / ((2 : Int) ^ j.toNat)
+
+theorem natAbs_lt_two_pow_bitLen (i : Int) : i.natAbs < 2 ^ bitLen i := by
+  unfold bitLen
+  split
+  · omega
+  · exact Nat.lt_log2_self
+
+@[csimp] theorem bigRsh_eq_fast : @bigRsh = @bigRshFast := by
+  funext i j
+  unfold bigRsh bigRshFast
+  split
+  · rename_i hle
+    have h1 := natAbs_lt_two_pow_bitLen i
+    have h2 : 2 ^ bitLen i ≤ 2 ^ j.toNat := Nat.pow_le_pow_right (by decide) hle
+    have e : ((2 ^ j.toNat : Nat) : Int) = (2 : Int) ^ j.toNat := Int.natCast_pow 2 _
+    rw [← e]
+    generalize hd : ((2 ^ j.toNat : Nat) : Int) = d
+    have hd1 : (i.natAbs : Int) < d := by omega
+    split
+    · rename_i hneg
+      exact ((Int.ediv_emod_unique (a := i) (b := d) (q := -1) (r := i + d) (by omega)).2
+        ⟨by omega, by omega, by omega⟩).1
+    · exact Int.ediv_eq_zero_of_lt (by omega) (by omega)
+  · rfl
+
 def bigQuo (i j : Int) : Int := Int.tdiv i j
 
 /-! The four sign-definite blocks of `mulLsh` (inline in the Go code):
@@ -399,9 +432,6 @@ def ior : Int → Int → Int
 
 /-- `big.Int.AndNot` -/
 def iandNot (a b : Int) : Int := iand a (inot b)
-
-/-- `BitLen` of the absolute value -/
-def bitLen (i : Int) : Nat := if i.natAbs = 0 then 0 else Nat.log2 i.natAbs + 1
 
 /-- `bitFillRight` on its domain (non-negative argument; 0xFFFF-bit size panic out of scope).
 Outside the domain the value is irrelevant (see `bitFillRightP`); the argument is returned. -/
